@@ -5,9 +5,13 @@
 (* on the unbuffered pipe; on read error: closed ? exit : continue), closer, dispatcher (receive ->    *)
 (* OnEvent; nil -> exit) and senders (the adversary). Events and errors are two logs with no           *)
 (* cross-order: OnError runs on the receive-loop goroutine, OnEvent on the dispatch goroutine.          *)
-(* SpawnPerEvent is a design switch for the expected-to-fail configuration (a goroutine per event).     *)
+(* Design switches for the expected-to-fail configurations: SpawnPerEvent (a goroutine per event),      *)
+(* DropWhenBusy (the handler hands an event over only if the dispatcher is ready, else reports an error  *)
+(* and drops it - a non-blocking send on a buffered pipe), DoneOnClose (the `done` channel is closed by   *)
+(* the closer right after the socket, i.e. it means "socket closed" instead of "receive loop stopped":     *)
+(* Listen then returns and closes the event pipe while the loop may still be sending on it).               *)
 EXTENDS Integers, Sequences, FiniteSets, TLC
-CONSTANTS MaxDgrams, Senders, SpawnPerEvent
+CONSTANTS MaxDgrams, Senders, SpawnPerEvent, DropWhenBusy, DoneOnClose
 VARIABLES mpc, lpc, dpc, cpc, sockOpen, closedFlag, signalClosed, doneClosed, pipeClosed,
           inbox, cur, hand, evlog, errlog, connected, sent, nsent, bag, dropped
 vars == <<mpc, lpc, dpc, cpc, sockOpen, closedFlag, signalClosed, doneClosed, pipeClosed, inbox, cur, hand, evlog, errlog, connected, sent, nsent, bag, dropped>>
@@ -27,7 +31,8 @@ Return == mpc = "waitdone" /\ doneClosed /\ mpc' = "returned" /\ pipeClosed' = T
         /\ U(<<lpc, dpc, cpc, sockOpen, closedFlag, signalClosed, doneClosed, inbox, cur, hand, evlog, errlog, connected, sent, nsent, bag, dropped>>)
 \* closer
 CloserFire == cpc = "wait" /\ signalClosed /\ cpc' = "done" /\ closedFlag' = TRUE /\ sockOpen' = FALSE
-        /\ U(<<mpc, lpc, dpc, signalClosed, doneClosed, pipeClosed, inbox, cur, hand, evlog, errlog, connected, sent, nsent, bag, dropped>>)
+        /\ doneClosed' = (IF DoneOnClose THEN TRUE ELSE doneClosed)
+        /\ U(<<mpc, lpc, dpc, signalClosed, pipeClosed, inbox, cur, hand, evlog, errlog, connected, sent, nsent, bag, dropped>>)
 \* senders (adversary)
 Send(s, cls) == nsent < MaxDgrams /\ nsent' = nsent + 1
         /\ LET d == [cls |-> cls, s |-> s, n |-> Len(sent[s]) + 1] IN
@@ -40,7 +45,7 @@ LRead == lpc = "read" /\ sockOpen /\ inbox # <<>> /\ cur' = Head(inbox) /\ inbox
 LReadErr == lpc = "read" /\ ~sockOpen /\ (IF closedFlag THEN lpc' = "exit" /\ doneClosed' = TRUE ELSE U(<<lpc, doneClosed>>))
         /\ dropped' = dropped \cup {inbox[i] : i \in 1..Len(inbox)} /\ inbox' = <<>>
         /\ U(<<mpc, dpc, cpc, sockOpen, closedFlag, signalClosed, pipeClosed, cur, hand, evlog, errlog, connected, sent, nsent, bag>>)
-LHandle == lpc = "handle" /\ (IF cur.cls = "valid" THEN lpc' = "sendpipe" /\ U(<<errlog, cur>>)
+LHandle == lpc = "handle" /\ (IF cur.cls = "valid" /\ ~(DropWhenBusy /\ dpc # "recv") THEN lpc' = "sendpipe" /\ U(<<errlog, cur>>)
                                                  ELSE lpc' = "read" /\ errlog' = Append(errlog, cur) /\ cur' = None)
         /\ U(<<mpc, dpc, cpc, sockOpen, closedFlag, signalClosed, doneClosed, pipeClosed, inbox, hand, evlog, connected, sent, nsent, bag, dropped>>)
 \* rendezvous on the unbuffered pipe
@@ -67,6 +72,8 @@ ErrorsInOrderOnce == \A s \in Senders : IsPrefix(Proj(errlog, s), BadOf(s))
 ConnectedOnce == connected <= 1 /\ (mpc \in {"waitq", "waitdone", "returned"} => connected = 1)
 Quiescent == mpc = "returned" /\ dpc = "exit" /\ lpc = "exit" /\ bag = {}
 Complete == Quiescent => \A s \in Senders : Proj(evlog, s) = ValidOf(s) /\ Proj(errlog, s) = BadOf(s)
+\* nobody ever sends on the event pipe after it has been closed (a Go panic on a library goroutine)
+NoSendOnClosedPipe == ~(lpc = "sendpipe" /\ pipeClosed)
 Rebindable == mpc = "returned" => ~sockOpen /\ cpc = "done" /\ lpc = "exit"
 Terminates == (mpc = "waitdone") ~> (mpc = "returned" /\ dpc = "exit")
 =============================================================================
